@@ -190,6 +190,17 @@ func c03CheckR(c c03RCase) h.Result {
 	c03RExpect(r, "ExpandedRistrettoPoint.Point", ep.Point(), pr)
 	c03RExpect(r, "SetExpanded", New().SetExpanded(ep), pr)
 	c03RExpect(r, "ExpandedDoubleScalarMulBasepointVartime", New().ExpandedDoubleScalarMulBasepointVartime(s, ep, s2), sPs2B)
+	// the point handed out by Point() is the caller's; a by-value snapshot keeps
+	// standing for its own point after the original is re-set
+	hand := ep.Point()
+	hand.Add(hand, curve.RISTRETTO_BASEPOINT_POINT)
+	c03RExpect(r, "ExpandedRistrettoPoint.Point(after-caller-modified-the-returned-point)", ep.Point(), pr)
+	c03RExpect(r, "ExpandedDoubleScalarMulBasepointVartime(after-caller-modified-the-returned-point)", New().ExpandedDoubleScalarMulBasepointVartime(s, ep, s2), sPs2B)
+	snap := *ep
+	ep.SetRistrettoPoint(curve.RISTRETTO_BASEPOINT_POINT)
+	c03RExpect(r, "ExpandedRistrettoPoint(value-copy).Point", snap.Point(), pr)
+	c03RExpect(r, "ExpandedDoubleScalarMulBasepointVartime(value-copy,original-reset)", New().ExpandedDoubleScalarMulBasepointVartime(s, &snap, s2), sPs2B)
+	c03RExpect(r, "ExpandedRistrettoPoint.Point(original-after-reset)", ep.Point(), ref.Base)
 
 	// multiscalar
 	rps := h.C03Points(c.Terms)
